@@ -35,20 +35,25 @@ def _single_return(ft, ref: FuncRef) -> Term:
     rets = list(ft.of_kind("return"))
     if not rets:
         raise AnalysisError(f"{ref.short}: no return")
-    if len(rets) > 1 and _COL:
-        for r in rets[:-1]:
-            _COL[-1].check(False, ref.where(r.node), ref.short, f"{ref.node.name} is one formula for every state (extra return of {short(r.value, 40)})",
-                           construct=f"extra-return:{ref.node.name}", necessity="a shortcut return changes what the environment reports in the states that take it")
-    elif len(rets) > 1:
-        raise AnalysisError(f"{ref.short}: expected a single return, found {len(rets)}")
-    # terms carry no time: a value that is patched in place after it was computed (`mask[:] = True`) still has the term of the formula
     rv = rets[-1].value
+    if len(rets) > 1:
+        # early returns under plain guards are one conditional formula (`if c: return A` ... `return B` is `A if c else B`)
+        folded = ft.result()
+        if folded[0] != "unknown":
+            rv = folded
+        elif _COL:
+            for r in rets[:-1]:
+                _COL[-1].check(False, ref.where(r.node), ref.short, f"{ref.node.name} is one formula for every state (extra return of {short(r.value, 40)})",
+                               construct=f"extra-return:{ref.node.name}", necessity="a shortcut return changes what the environment reports in the states that take it")
+        else:
+            raise AnalysisError(f"{ref.short}: expected a single return, found {len(rets)}")
+    # terms carry no time: a value that is patched in place after it was computed (`mask[:] = True`) still has the term of the formula
     if _COL and isinstance(rv, tuple):
         for e in list(ft.of_kind("store")) + list(ft.of_kind("aug")):
             base = e.obj if e.kind == "store" else e.target
             while isinstance(base, tuple) and base[0] == "index":
                 base = base[1]
-            if e.index is not None and base == rv and e.seq < rets[-1].seq:
+            if e.index is not None and any(base == r.value and e.seq < r.seq for r in rets):
                 _COL[-1].check(False, ref.where(e.node), ref.short, f"{ref.node.name} returns its formula unmodified (in-place write into the value before it is returned)",
                                construct=f"patched-result:{ref.node.name}", necessity="an in-place patch changes what the environment reports in the states that take it")
     return rv
@@ -252,6 +257,11 @@ def _atoms_or(t: Term) -> list[Term]:
         return out
     if is_call_to(t, "bool", "numpy.bool_") and len(t[2]) == 1:
         return _atoms_or(t[2][0])
+    # folded early returns: `if c: return c|True` ... is `c or rest`; `if not c: return True` ... is `(not c) or rest`
+    if t[0] == "ifexp" and t[2] in (t[1], ("const", True)):
+        return _atoms_or(t[1]) + _atoms_or(t[3])
+    if t[0] == "ifexp" and t[3] == ("const", True):
+        return [("un", "not", t[1])] + _atoms_or(t[2])
     if is_call_to(t, "any", "numpy.any") and len(t[2]) == 1 and t[2][0][0] in ("list", "tuple"):
         out = []
         for x in t[2][0][1]:
